@@ -14,7 +14,7 @@ import ast
 import z3
 
 from . import core
-from .core import Unsupported, AList, is_z3, to_z3
+from .core import Unsupported, AList, Conc, is_z3, to_z3
 from .values import *  # noqa
 from . import loops
 
@@ -108,9 +108,61 @@ def exec_inv_for(I, st, env, it, spec):
     assume_clauses(dict(env.vars))
 
 
+def exec_havoc_for(I, st, env, it, spec):
+    """R-HAVOC: a loop that only appends to / extends list accumulators and whose iterations all end normally is
+    summarised by "each accumulator is now its old content followed by an ARBITRARY list of the declared element
+    kind".  Nothing about what was appended is kept - the rule exists for functions that hand the accumulated list
+    to a constructor which validates it (`intersection`, `mergeLabels`): what can then be proved is exactly what
+    holds for every list (the class invariant of the constructed tier, the exception classes)."""
+    from .contracts import Sym
+    kinds = spec["havoc"]
+    src = loops.classify_iterable(I, it)
+    body = st.body
+    assigned = loops.assigned_names(body) | loops.assigned_names([ast.Assign(targets=[st.target], value=ast.Constant(0))])
+    target_names = loops.assigned_names([ast.Assign(targets=[st.target], value=ast.Constant(0))])
+
+    def lookup(n):
+        try:
+            return env.lookup(n)
+        except KeyError:
+            return None
+    accs = loops.accumulator_names(body, lookup)
+    if sorted(accs) != sorted(kinds):
+        raise Unsupported("havoc annotation names %s but the loop's append-only accumulators are %s" % (sorted(kinds), sorted(accs)))
+    poisoned = [n for n in assigned if n not in target_names]
+
+    def run_body(cenv, value, recs):
+        for r in recs.values():
+            r.tolerate_abstract = True
+        I.assign(st.target, value, cenv)
+        try:
+            I.exec_block(body, cenv)
+        except ContinueEx:
+            pass
+    j, sterm, results, binds = loops.explore_body(I, src, run_body, accs, poisoned, env, want_updates=(),
+                                                 check_escape=False)
+    for bp in results:
+        if bp.kind != "normal":
+            raise Unsupported("havoc rule: an iteration may %s" % bp.kind)
+    S = Sym(I, spec.get("spec_module", "spec.tiers"))
+    I.havoc_counter = getattr(I, "havoc_counter", 0) + 1
+    for n, kind in kinds.items():
+        box = env.lookup(n)
+        I.check_mutable(box)
+        extra = S.list("havoc%d.%s" % (I.havoc_counter, n), kind)
+        extra.owner = id(I.ctx)
+        old = box.term
+        box.term = extra.term if (isinstance(old, Conc) and not old.items) else core.mk_concat(I, [old, extra.term], extra.term.etype)
+    for n in assigned:
+        if n not in kinds:
+            env.vars[n] = Poison("assigned in a loop summarised by havoc")
+
+
 def exec_fold_for(I, st, env, it, spec):
     if "invariant" in spec:
         return exec_inv_for(I, st, env, it, spec)
+    if "havoc" in spec:
+        return exec_havoc_for(I, st, env, it, spec)
     carried = spec.get("carried", {})
     if not carried:
         raise Unsupported("fold rule without carried expressions")
